@@ -11,6 +11,7 @@ import (
 
 var checks = map[string]func(run *ev.Run){
 	"C12": difflab.CheckC12,
+	"C15": difflab.CheckC15,
 }
 
 func init() {
